@@ -865,6 +865,58 @@ pub fn subjects() -> Vec<String> {
     s
 }
 
+/// Which file is layered under the command line: the real `TrippyConfig::from` over real files.  Every combination of the
+/// eight default locations (trippy.toml / .trippy.toml in the current directory, the home directory, the configuration directory
+/// and its trippy/ subdirectory) holding a file or not, with and without a file named with -c; every file sets a different
+/// max-ttl, so the effective value names the file that was used.  `c16loc <named> <bits>` => `src=<k>`: 0 = the named file,
+/// i+1 = default location i, 9 = none (built-in default 64).
+fn loc_cases(out: &mut Out, only: Option<&[String]>) {
+    let root = std::env::temp_dir().join(format!("tv-c16loc-{}", std::process::id()));
+    let (cwd, home, xdg) = (root.join("cwd"), root.join("home"), root.join("xdg"));
+    for d in [&cwd, &home, &xdg, &xdg.join("trippy")] { let _ = std::fs::create_dir_all(d); }
+    let old_cwd = std::env::current_dir().ok();
+    let old_env: Vec<(&str, Option<std::ffi::OsString>)> = ["HOME", "XDG_CONFIG_HOME"].iter().map(|k| (*k, std::env::var_os(k))).collect();
+    std::env::set_var("HOME", &home);
+    std::env::set_var("XDG_CONFIG_HOME", &xdg);
+    let _ = std::env::set_current_dir(&cwd);
+    let locs: Vec<std::path::PathBuf> = [&cwd, &home, &xdg, &xdg.join("trippy")].iter()
+        .flat_map(|d| [d.join("trippy.toml"), d.join(".trippy.toml")]).collect();
+    let named = root.join("named.toml");
+    let _ = std::fs::write(&named, "[strategy]\nmax-ttl = 30\nmax-inflight = 7\n");
+    let mut n = 0usize;
+    for with_named in [false, true] {
+        for bits in 0..256usize {
+            let bitstr: String = (0..8).map(|i| if bits >> i & 1 == 1 { '1' } else { '0' }).collect();
+            let input = format!("c16loc {} {}", u8::from(with_named), bitstr);
+            if only.is_some_and(|o| !o.contains(&input)) { continue; }
+            for (i, p) in locs.iter().enumerate() {
+                if bits >> i & 1 == 1 { let _ = std::fs::write(p, format!("[strategy]\nmax-ttl = {}\nfirst-ttl = 2\n", 40 + i)); } else { let _ = std::fs::remove_file(p); }
+            }
+            let mut argv: Vec<String> = vec!["trip".into(), "example.com".into()];
+            if with_named { argv.push("-c".into()); argv.push(named.to_string_lossy().into_owned()); }
+            let res = std::panic::catch_unwind(|| -> Result<u8, String> {
+                let a = tv::parse_args(&argv)?;
+                TrippyConfig::from(a, &tv::Privilege::new(true, false), 4242).map(|c| c.max_ttl).map_err(|e| format!("{e:#}"))
+            });
+            let expect = if with_named { 0 } else { (0..8).find(|i| bits >> i & 1 == 1).map_or(9, |i| i + 1) };
+            let (output, oracle) = match res {
+                Err(_) => ("fault:panic".to_string(), "FAIL:C16:reading_the_configuration_file_panicked".to_string()),
+                Ok(Err(e)) => ("err".to_string(), format!("FAIL:C16:configuration_refused:{}", e.replace(' ', "_"))),
+                Ok(Ok(m)) => {
+                    let k = match m { 30 => 0usize, 64 => 9, x if (40..48).contains(&x) => usize::from(x) - 39, _ => 99 };
+                    (format!("src={k}"), if k == expect { "ok".to_string() } else { format!("FAIL:C16:values_taken_from_source_{k}_expected_{expect}_(0=the_file_named_with_-c,i=default_location_i,9=none)") })
+                }
+            };
+            out.case(&input, &output, &oracle);
+            n += 1;
+        }
+    }
+    if let Some(d) = old_cwd { let _ = std::env::set_current_dir(d); }
+    for (k, v) in old_env { match v { Some(v) => std::env::set_var(k, v), None => std::env::remove_var(k) } }
+    let _ = std::fs::remove_dir_all(&root);
+    out.stat("file_location_cases", n);
+}
+
 pub fn run(args: &Args, out: &mut Out) {
     let mut stats: BTreeMap<String, u64> = BTreeMap::new();
     let emit = |c: &Case, out: &mut Out, stats: &mut BTreeMap<String, u64>| {
@@ -880,11 +932,16 @@ pub fn run(args: &Args, out: &mut Out) {
         if args.replay.is_some() { out.stat("detail", ran.detail.replace('\n', "\\n")); }
     };
     if let Some(path) = &args.replay {
-        for l in crate::replay_inputs(path) {
+        let lines = crate::replay_inputs(path);
+        let loc: Vec<String> = lines.iter().filter(|l| l.starts_with("c16loc ")).cloned().collect();
+        if !loc.is_empty() { loc_cases(out, Some(&loc)); }
+        for l in lines {
+            if l.starts_with("c16loc ") { continue; }
             if let Some(c) = Case::parse(&l) { emit(&c, out, &mut stats); }
         }
         return;
     }
+    loc_cases(out, None);
     let mut rng = Rng::new(args.seed ^ 0xC16);
     let samples = args.n.unwrap_or(if args.tier_thorough { 300 } else { 20 });
     // the empty configuration in both file forms and all privilege combinations
